@@ -1752,6 +1752,14 @@ DECODE_MORE:
         }
 #endif
         return MATRIXSSL_APP_DATA;
+
+    default:
+        /* A failure the decoder did not classify (an allocation or
+           internal error while the reply flight was being built comes
+           back as its own code): the call reports PS_PROTOCOL_FAIL, and
+           like every other failed call it leaves a dead session. */
+        ssl->flags |= SSL_FLAGS_ERROR;
+        break;
     } /* switch decodeRet */
 
     if (ssl->inlen > 0 && (buf != ssl->inbuf))
